@@ -117,12 +117,16 @@ func (ir *ifdReader) discard(n int) (err error) {
 	if n == 0 {
 		return nil
 	}
+	if ir.readErr != nil {
+		return ir.readErr
+	}
 	if int(ir.exifLength) < n+int(ir.po) {
 		n = int(ir.exifLength) - int(ir.po)
 	}
 	if br, ok := ir.reader.(BufferedReader); ok {
 		n, err = br.Discard(n)
 		ir.po += uint32(n)
+		ir.streamError(err)
 		return err
 	}
 	var discarded int
@@ -135,6 +139,7 @@ func (ir *ifdReader) discard(n int) (err error) {
 		ir.po += uint32(discarded)
 		n -= discarded
 	}
+	ir.streamError(err)
 	return err
 }
 
